@@ -423,6 +423,51 @@ def _index_of(op, tk):
     return np.array(cu.intvec(tk.next()), dtype=int)
 
 
+_LAST_INFO = {}
+
+
+def _cat_compatible(objs):
+    """Plain predicate: may these objects be concatenated (same class, same dimension, dense: same grid;
+    multivariate: same number of components, component-wise compatible)?"""
+    A, V, FD = cu._fd()
+    try:
+        if len({type(o) for o in objs}) > 1:
+            return False
+        if isinstance(objs[0], FD.MultivariateFunctionalData):
+            if len({len(o.data) for o in objs}) > 1:
+                return False
+            return all(_cat_compatible([o.data[k] for o in objs]) for k in range(len(objs[0].data)))
+        if isinstance(objs[0], FD.DenseFunctionalData):
+            a0 = objs[0].argvals
+            return all(list(o.argvals.keys()) == list(a0.keys()) and all(np.array_equal(o.argvals[k], a0[k]) for k in a0) for o in objs)
+        dims = {len(next(iter(o.argvals.values()))) for o in objs if len(o.argvals)}
+        return len(dims) <= 1 and all(len(o.argvals) for o in objs)
+    except Exception:  # noqa: BLE001
+        return False
+
+
+def _wrong_class(obj, toks):
+    """Is the argument of this setter / constructor of a class for which a TypeError is documented?"""
+    A, V, FD = cu._fd()
+    op = toks[0]
+    if op in ("mkD", "mkI"):
+        want = "d" if op == "mkD" else "i"
+        rest = toks[1:]
+        a = rest[0]
+        # the value token follows the argvals description
+        vtok = next((t for t in rest[1:] if t in ("dv", "iv", "ov", "bv")), None)
+        return a in ("oa", "ba") or a[0] != want or vtok in ("ov", "bv") or (vtok is not None and vtok[0] != want)
+    if op in ("setA", "setV", "setS"):
+        if not isinstance(obj, FD.GridFunctionalData):
+            return False
+        want = "d" if isinstance(obj, FD.DenseFunctionalData) else "i"
+        t = toks[1]
+        if t in ("oa", "ba", "ov", "bv"):
+            return True
+        return t[0] != want and (op != "setS" or _guard() == 1)
+    return False
+
+
 def apply_op(obj, toks, shadow):
     """Apply one operation.  Returns (obj', outcome, shadow').
 
@@ -499,6 +544,7 @@ def apply_op(obj, toks, shadow):
             if obj is None:
                 return obj, "na", shadow
             others = [r() for r in cu.parse_counted(tk, cu.parse_srecipe)]
+            _LAST_INFO["cat_compatible"] = _cat_compatible([obj] + others)
             new = type(obj).concatenate(obj, *others)
             return new, "ok", ([id(c) for c in new.data] if is_multi else None)
         raise RuntimeError("unknown op " + op)
@@ -592,7 +638,12 @@ def run_history(ops, light=0):
     after = "E"
     for k, toks in enumerate(ops):
         before = after
+        _LAST_INFO.clear()
+        wrong_class = _wrong_class(obj, toks)
         obj2, out, shadow2 = apply_op(obj, toks, shadow)
+        info = dict(_LAST_INFO)
+        if wrong_class:
+            info["wrong_class"] = True
         if out != "ok":
             obj2, shadow2 = obj, shadow
         obj, shadow = obj2, shadow2
@@ -605,7 +656,7 @@ def run_history(ops, light=0):
             steps.append(dict(out=out, state=after, obs="", bad=check_obj(obj, shadow, fresh), unchanged=True))
             continue
         steps.append(dict(out=out, state=after, obs=cu.show_observers(obj), bad=check_obj(obj, shadow, fresh),
-                          unchanged=(before == after)))
+                          unchanged=(before == after), info=info))
     return obj, steps
 
 
@@ -888,6 +939,13 @@ def _judge(ops, steps):
             if st["out"] not in allowed and not (st["out"] == "Other" and _empty_irregular_involved(ops, steps, k)):
                 vs.append(dict(clause="reject_class", entry=entry, causes=["class_" + st["out"]], step=k,
                                msg=f"step {k} `{desc}` was rejected with {st['out']}"))
+        info = st.get("info") or {}
+        if info.get("wrong_class") and st["out"] != "TypeError":
+            vs.append(dict(clause="reject_type_documented", entry=entry, causes=["got_" + st["out"]], step=k,
+                           msg=f"step {k} `{desc}`: an argument of the wrong class must raise TypeError, got {st['out']}"))
+        if info.get("cat_compatible") is False and st["out"] == "ok":
+            vs.append(dict(clause="incompatible_accepted", entry=entry, causes=[], step=k,
+                           msg=f"step {k} `{desc}`: incompatible pieces (class / dimension / grid / number of components) were concatenated into {st['state']}"))
         new_bad = [b for b in st["bad"] if b not in prev_bad]
         for b in new_bad:
             causes = []
